@@ -35,12 +35,17 @@ ScalarsOK(st, g) ==
   /\ (g.uni /\ st.lgMax <= 10) => 2 * st.offset * P2(st.lgMax) <= 7 * st.weight
   /\ On("C18") => st.nAct <= CapOf(st.lgMax)
 
-(* ---- binary layout (family 10, serial version 1) of an i64 sketch: one preamble long when empty, ----
+(* ---- binary layout (family 10, serial version 1) of an i64 / u64 / string sketch: one preamble long when empty, ----
    ---- else 4 longs, then the active counters in slot order, then their items in the same order ---- *)
 LE(x, n) == [i \in 1..n |-> (x \div (256 ^ (i - 1))) % 256]
 Val8(x) == LE(x, 4) \o <<0, 0, 0, 0>>
 FlatS(ss) == FoldLeft(LAMBDA acc, s : acc \o s, <<>>, ss)
-\* ib[i]: the 8 bytes of the item in the i-th active slot (items are opaque to the specification)
+\* an item on the wire: the 8 little-endian bytes of an i64 / u64; for a string its UTF-8 bytes
+\* preceded by their number as a 4-byte little-endian integer (raw: the item's own bytes, opaque here)
+ItemEnc(ty, raw) ==
+  LET r == [j \in 1..Len(raw) |-> raw[j]] IN
+  IF ty = "str" THEN LE(Len(r), 4) \o r ELSE r
+\* ib[i]: the encoded item of the i-th active slot
 EncFI(st, ib) ==
   LET act == SelectSeq([i \in 1..Size(st) |-> i - 1], LAMBDA p : st.m.dr[p] > 0) IN
   IF IsEmpty(st) THEN <<1, 1, 10, st.lgMax, st.lgCur, 5, 0, 0>>
@@ -103,7 +108,7 @@ TrChk ==
        /\ \A id \in DOMAIN g.truth : g.truth[id] > st.offset => id \in SeqSet(Ev.nfn)
        /\ Ev.maxerr = st.offset
   /\ (On("C12") /\ "img" \in DOMAIN Ev) =>
-        [i \in 1..Len(Ev.img) |-> Ev.img[i]] = EncFI(obj[Ev.id], [i \in 1..Len(Ev.ib) |-> [j \in 1..8 |-> Ev.ib[i][j]]])
+        [i \in 1..Len(Ev.img) |-> Ev.img[i]] = EncFI(obj[Ev.id], [i \in 1..Len(Ev.ib) |-> ItemEnc(Ev.ty, Ev.ib[i])])
   /\ UNCHANGED <<obj, gh>>
 
 \* deserialize(serialize(s)): counters are re-inserted in slot order into a map of the same size
